@@ -134,11 +134,11 @@ func fillValue(v reflect.Value, fs []sField, ctr *int, path string, out map[stri
 // Go's selector rule: the shallowest depth at which the name occurs (descending through embedded
 // structs and embedded struct pointers); more than one occurrence there is ambiguous.
 type sHit struct {
-	path    string
-	f       sField
-	viaNil  bool
-	viaHid  bool // reached through an unexported embedded field
-	viaPtr  bool
+	path   string
+	f      sField
+	viaNil bool
+	viaHid bool // reached through an unexported embedded field
+	viaPtr bool
 }
 
 func selectField(fs []sField, name string) (hits []sHit) {
@@ -194,7 +194,7 @@ func genStructCases(r *h.Rand) []h.Case {
 	}
 	return []h.Case{
 		{Stream: "cache", NonTrivial: len(ty) > 1, Cmd: sx.L(sx.A("buildcache"), stripNil(ts))},
-		{Stream: "structs", NonTrivial: true, NoModel: true, Cmd: sx.L(sx.A("struct-access"), ts, q)},
+		{Stream: "structs", NonTrivial: true, NoModel: true, Cmd: sx.L(sx.A("struct-access"), ts, q, sx.A(r.Pick([]string{"fwd", "rev"})))},
 	}
 }
 
@@ -248,7 +248,39 @@ func init() {
 		return m
 	}
 	h.RegisterImpl("struct-access", func(cmd, meta *sx.Sexp) (*sx.Sexp, string) {
-		fs := readType(cmd.Xs[1])
+		// the same struct type is used twice in this process: once with every embedded pointer set and
+		// once with the generated nil pointers, in either order - what the first use leaves in the
+		// process-wide field cache must not change what the second one sees
+		gen := readType(cmd.Xs[1])
+		full := clearNil(gen)
+		order := [][]sField{full, gen}
+		if len(cmd.Xs) > 3 && cmd.Xs[3].A == "rev" {
+			order = [][]sField{gen, full}
+		}
+		out := sx.L(sx.A("access2"))
+		for _, fs := range order {
+			o, fail := structAccessOnce(fs, cmd.Xs[2])
+			out.Add(o)
+			if fail != "" {
+				return out, fail
+			}
+		}
+		return out, ""
+	})
+}
+
+func clearNil(fs []sField) []sField {
+	out := make([]sField, len(fs))
+	for i, f := range fs {
+		f.nilPtr = false
+		f.sub = clearNil(f.sub)
+		out[i] = f
+	}
+	return out
+}
+
+func structAccessOnce(fs []sField, names *sx.Sexp) (*sx.Sexp, string) {
+	{
 		typ := reflectType(fs)
 		v := reflect.New(typ).Elem()
 		ctr := 0
@@ -258,7 +290,7 @@ func init() {
 		out := sx.L(sx.A("access"))
 		oracle := ""
 		files := map[string]string{}
-		for i, n := range cmd.Xs[2].Xs {
+		for i, n := range names.Xs {
 			files[fmt.Sprintf("/d%d.jet", i)] = "[{{ ." + string(n.B) + " }}]"
 			files[fmt.Sprintf("/i%d.jet", i)] = `[{{ .["` + string(n.B) + `"] }}]`
 		}
@@ -278,7 +310,7 @@ func init() {
 			}
 			return "ok " + buf.String()
 		}
-		for i, n := range cmd.Xs[2].Xs {
+		for i, n := range names.Xs {
 			name := string(n.B)
 			d := run(fmt.Sprintf("/d%d.jet", i))
 			ix := run(fmt.Sprintf("/i%d.jet", i))
@@ -338,7 +370,10 @@ func init() {
 			}
 		}
 		return out, oracle
-	})
+	}
+}
+
+func init() {
 	h.RegisterProp(&h.Prop{ID: "C06", Gen: func(r *h.Rand, tier string) []h.Case {
 		n := 300
 		if tier == "search" {
@@ -416,6 +451,19 @@ type methNone struct {
 
 func (methNone) Other() string { return "other" }
 
+// value and pointer methods on one type: the method sets of T and *T number them differently
+type mixM struct{ N string }
+
+func (m mixM) Zed() string    { return "zed:" + m.N }
+func (m *mixM) Alpha() string { return "alpha:" + m.N }
+func (m mixM) Mid() string    { return "mid:" + m.N }
+
+type mixHolder struct {
+	V mixM
+	P *mixM
+	M map[string]interface{}
+}
+
 func init() {
 	h.RegisterImpl("method-access", func(cmd, _ *sx.Sexp) (*sx.Sexp, string) {
 		which := cmd.Xs[1].A
@@ -431,12 +479,23 @@ func init() {
 			data, wantF = &methP{emb}, "pmethod-F"
 		case "deep":
 			data, wantF = methDeep{methV{emb}, "h"}, "method-F"
+		case "mixed", "mixedRev":
+			data = mixHolder{V: mixM{"v"}, P: &mixM{"p"}, M: map[string]interface{}{"v": mixM{"m"}, "p": &mixM{"mp"}}}
 		default:
 			data, wantF = methNone{emb, "h"}, ""
 		}
 		type q struct{ src, want string }
 		qs := []q{{`{{ .G }}`, "7"}, {`{{ .EmbF.F }}`, "field-F"}, {`{{ .EmbF.G + 1 }}`, "8"}}
-		if wantF != "" {
+		if which == "mixed" || which == "mixedRev" {
+			qs = []q{{`{{ .V.Zed() }}`, "zed:v"}, {`{{ .P.Zed() }}`, "zed:p"}, {`{{ .P.Alpha() }}`, "alpha:p"}, {`{{ .M.v.Zed() }}`, "zed:m"},
+				{`{{ .M.p.Alpha() }}`, "alpha:mp"}, {`{{ .V.Mid() }}|{{ .P.Mid() }}`, "mid:v|mid:p"}, {`{{ .V.Alpha() }}`, "ERR"}, {`{{ .M.v.Alpha() }}`, "ERR"},
+				{`{{ .M.p.Zed() }}|{{ .M.v.Mid() }}`, "zed:mp|mid:m"}}
+			if which == "mixedRev" {
+				for i, j := 0, len(qs)-1; i < j; i, j = i+1, j-1 {
+					qs[i], qs[j] = qs[j], qs[i]
+				}
+			}
+		} else if wantF != "" {
 			qs = append(qs, q{`{{ .F() }}`, wantF}, q{`{{ x := .F }}{{ x() }}`, wantF})
 		} else {
 			qs = append(qs, q{`{{ .F }}`, "field-F"}, q{`{{ .["F"] }}`, "field-F"}, q{`{{ .Other() }}`, "other"})
@@ -480,6 +539,6 @@ func init() {
 }
 
 func genMethodCase(r *h.Rand) h.Case {
-	w := r.Pick([]string{"valueMethod", "valueMethodPtr", "ptrMethod", "deep", "none"})
+	w := r.Pick([]string{"valueMethod", "valueMethodPtr", "ptrMethod", "deep", "none", "mixed", "mixedRev"})
 	return h.Case{Stream: "methods", NoModel: true, NonTrivial: true, Tags: []string{w}, Cmd: sx.L(sx.A("method-access"), sx.A(w))}
 }
